@@ -47,7 +47,7 @@ TOL_EIG_SPARSE = 1e-7
 
 
 def budget(tier):
-    return {"examples": 5000 if tier == "quick" else 120000, "shards": 16, "shrink": 200 if tier == "quick" else 1000}
+    return {"examples": 10000 if tier == "quick" else 150000, "shards": 16, "shrink": 200 if tier == "quick" else 1000}
 
 
 # ----------------------------------------------------------------------------------------------------------------
